@@ -210,9 +210,9 @@ static void build_vals()
 	if (!vals.empty()) return;
 	auto S = [](int c, const char *t) { vals.push_back(Val{c, t, 0, 0}); };
 	auto T = [](int c, char ty, const void *p) { vals.push_back(Val{c, 0, ty, p}); };
-	S(V_EMPTY, ""); S(V_NUM, "0"); S(V_NUM, "1"); S(V_NUM, "-1"); S(V_NUM, "5"); S(V_NUM, "9"); S(V_NUM, "20"); S(V_NUM, "255"); S(V_NUMX, "256");
+	S(V_EMPTY, ""); S(V_EMPTY, " "); S(V_EMPTY, "\t "); S(V_NUM, "0"); S(V_NUM, "1"); S(V_NUM, "-1"); S(V_NUM, "5"); S(V_NUM, "9"); S(V_NUM, "20"); S(V_NUM, "255"); S(V_NUMX, "256");
 	S(V_NUMX, "32767"); S(V_NUMX, "32768"); S(V_NUMX, "65536"); S(V_NUMX, "4294967295"); S(V_NUMX, "4294967296");
-	S(V_FRAC, "0.5"); S(V_FRAC, "-0.5"); S(V_FRAC, "1e10"); S(V_FRAC, "1e40"); S(V_NUM, " 7"); S(V_NUM, "7 "); S(V_NUM, "1abc");
+	S(V_FRAC, "0.5"); S(V_FRAC, "-0.5"); S(V_FRAC, "1e10"); S(V_FRAC, "1e40"); S(V_NUM, " 7"); S(V_NUM, "7 "); S(V_NUM, "1abc"); S(V_NUM, "1e3"); S(V_NUM, "5 apples"); S(V_NUM, "1,5");
 	S(V_TEXT, "abc"); S(V_TEXT, "log"); S(V_TEXT, "LOG10"); S(V_TEXT, "n"); S(V_TEXT, "bez"); S(V_TEXT, "xy"); S(V_TEXT, "xyz"); S(V_TEXT, "two words");
 	S(V_LONG, X300.c_str());
 	S(V_POINT, "0.25 0.75"); S(V_POINT, "0.5 2"); S(V_POINT, "1 2 3");
@@ -270,7 +270,8 @@ static int deliver(Inst &x, const char *name, const Val &v, int pos = -1)
 }
 
 // ------------------------------------------------------------------ independent conversion of the input
-// result: 0 = no expectation, 1 = expected rendering in `out`, 2 = the value is not representable in the target type
+// result: 0 = no expectation, 1 = expected rendering in `out`, 2 = the value is not representable in the target type,
+// 3 = a numeral followed by other text (nothing the property type can denote)
 static bool num_prefix(const char *t, long double &val, bool &integral_only, const char *&end)
 {
 	while (isspace((unsigned char) *t)) ++t;
@@ -279,15 +280,14 @@ static bool num_prefix(const char *t, long double &val, bool &integral_only, con
 	if (*p == '0' && (isdigit((unsigned char) p[1]) || p[1] == 'x' || p[1] == 'X')) return false;   // octal/hex spellings: no expectation
 	char *e; val = strtold(t, &e); end = e; integral_only = false; return true;
 }
+// result 3: the text starts with a numeral but something other than white space follows it
 static int ref_int(const char *t, long double lo, long double hi, long long &out)
 {
-	while (isspace((unsigned char) *t)) ++t;
-	const char *p = t; bool neg = false; if (*p == '+' || *p == '-') { neg = *p == '-'; ++p; }
-	if (!isdigit((unsigned char) *p)) return 0;
-	if (*p == '0' && (isdigit((unsigned char) p[1]) || p[1] == 'x' || p[1] == 'X')) return 0;
-	long double v = 0; while (isdigit((unsigned char) *p)) v = v * 10 + (*p++ - '0');     // integer numeral prefix
-	if (neg) v = -v;
-	if (v < lo || v > hi) return 2;
+	long double v; bool io; const char *e;
+	if (!num_prefix(t, v, io, e)) return 0;
+	while (isspace((unsigned char) *e)) ++e;
+	if (*e) return 3;
+	if (std::isnan(v) || v != floorl(v) || v < lo || v > hi) return 2;    // the text denotes a number the integer type cannot hold ("0.5", "1e10", "256")
 	out = (long long) v; return 1;
 }
 static bool ref_colour(const char *t, uint8_t c[4])   // a r g b ; only the well-formed spellings
@@ -314,6 +314,8 @@ static int refconv(const std::string &tcls, const Val &v, std::string &out)
 		if (ir) { long long x; int k = ref_int(t, ir->lo, ir->hi, x); if (k == 1) intout(ir->t, ir->f, x); return k; }
 		if (tcls == "f" || tcls == "d") {
 			long double lv; bool io; const char *e; if (!num_prefix(t, lv, io, e)) return 0;
+			while (isspace((unsigned char) *e)) ++e;
+			if (*e) return 3;
 			errno = 0;
 			if (tcls == "f") { float f = strtof(t, 0); if (std::isinf(f)) return 2; out = fmt("f:%a", (double) f); }
 			else { double d = strtod(t, 0); if (std::isinf(d)) return 2; out = fmt("d:%a", d); }
@@ -715,6 +717,14 @@ static bool judged_op(Run &r, const Model &m, Inst &x, size_t opi, const Snap &b
 			return true;
 		}
 		const Val &v = m.opval(o);
+		if (v.txt && !m.poly[p] && m.def.v[p].compare(0, 2, "s:")) {
+			const char *b = v.txt; while (isspace((unsigned char) *b)) ++b;
+			if (!*b) {      // empty or white space only: there is no value in it, the property must show its default
+				if (after.v[p] != m.def.v[p]) { fail("not-default", "accepted a text without any value, reads back " + after.v[p] + " (previous value " + before.v[p] + ", fresh object " + m.def.v[p] + ")"); return false; }
+				r.count("blank text: default differential checked");
+				return true;
+			}
+		}
 		if (!m.poly[p]) {
 			std::string want; int k = refconv(tyclass(m.def.v[p]), v, want);
 			if (k == 1) {
@@ -723,6 +733,8 @@ static bool judged_op(Run &r, const Model &m, Inst &x, size_t opi, const Snap &b
 			} else if (k == 2) {
 				// the input denotes a number the property type cannot hold: accepting it cannot read back as that number
 				fail("accepted-out-of-range", "accepted although the input is not representable in the property type, reads back " + after.v[p] + " (previous value " + before.v[p] + ")"); return false;
+			} else if (k == 3) {
+				fail("accepts-ignored-text", "accepted although text follows the number, reads back " + after.v[p] + " (previous value " + before.v[p] + ")"); return false;
 			} else r.count("accepted without reference conversion");
 		} else r.count("accepted on attribute-text property (no reference conversion)");
 		if (fr.ret >= 0) {
@@ -980,7 +992,7 @@ void mc_explore(Run &r, const std::string &job)
 	JobSpec js = parse_job(job);
 	Model m(js.kind, js.cxx);
 	for (const char *k : { "nontrivial", "accepted", "refused", "frame condition checked", "reset: default differential checked", "read-back vs independent conversion checked", "self assignment: object unchanged checked", "accepted alias reads back the property it set",
-	                       "no-text value: default differential checked", "own-text value: read-back checked", "whole object, no value: default differential checked",
+	                       "no-text value: default differential checked", "blank text: default differential checked", "own-text value: read-back checked", "whole object, no value: default differential checked",
 	                       "independence of previous state checked", "copy-out: equality + independence checked", "get by name/unique prefix == get by position", "ledger: everything released" }) r.require(k);
 	r.additive = false;
 	bool count_low = js.slice == 0 && !js.deep;
